@@ -101,8 +101,10 @@ pub fn check_case(ctx: &Ctx, tape: &[u8], cfg: &Cfg, stats: &mut Stats) -> Resul
     let (r, k) = (names.binder[g.r as usize].clone(), names.binder[g.k as usize].clone());
     let (extra_block, extra_main) = match &tail_call {
         | Some((call, rty)) => (
-            format!("def ! translated_tail = @[monadic] begin\n( let zz : Unit = () in {call} : Ret {rty} )\nend that\n"),
-            format!("do q1 <- ( {call} : Ret {rty} ) ; do q2 <- ! translated_tail Ret {{ ! ret_monad }} ; let zq : {rty} * {rty} = ( q1 , q2 ) in\n"),
+            // the global is first referenced (from a checked position) by an earlier block, then from a let tail and
+            // from a match-like position by later ones
+            format!("def ! translated_first = @[monadic] begin\n( do zf <- {call} ; ret zf : Ret {rty} )\nend that\ndef ! translated_tail = @[monadic] begin\n( let zz : Unit = () in {call} : Ret {rty} )\nend that\n"),
+            format!("do q0 <- ! translated_first Ret {{ ! ret_monad }} ; do q1 <- ( {call} : Ret {rty} ) ; do q2 <- ! translated_tail Ret {{ ! ret_monad }} ; let zq : {rty} * {rty} * {rty} = ( q0 , q1 , q2 ) in\n"),
         ),
         | None => (String::new(), String::new()),
     };
@@ -111,8 +113,8 @@ pub fn check_case(ctx: &Ctx, tape: &[u8], cfg: &Cfg, stats: &mut Stats) -> Resul
 def ! ret_monad : Monad Ret =\n  comatch\n  | .return A value => ret value\n  | .bind A B computation function =>\n    do value <- ! computation ;\n    ! function value\n  end\nthat\n\
 let RU (A : VType) : CType = Unit -> Ret A that\n\
 def ! reader_monad : Monad RU =\n  comatch\n  | .return A value => fn (_ : Unit) => ret value\n  | .bind A B computation function => fn (u : Unit) =>\n    do value <- ! computation u ;\n    ! function value u\n  end\nthat\n\
-def ! translated = @[monadic] begin\n( {body}\n: Ret {a_atom} )\nend that\n\
-def ! translated_again = @[monadic] begin\n( {body}\n: Ret {a_atom} )\nend that\n{extra_block}\
+{extra_block}def ! translated = @[monadic] begin\n( {body}\n: Ret {a_atom} )\nend that\n\
+def ! translated_again = @[monadic] begin\n( {body}\n: Ret {a_atom} )\nend that\n\
 let show : Thk ({a_atom} -> Thk OS -> OS) = {{ fn ({r} : {a_ty}) => fn ({k} : Thk OS) =>\n{show}\n}} that\n\
 ( do p1 <- ( {body}\n: Ret {a_atom} ) ; ! show p1 {{ ! (stdio/write_line) \"{SEP}\" {{\n\
 do p2 <- ! translated Ret {{ ! ret_monad }} ; ! show p2 {{ ! (stdio/write_line) \"{SEP}\" {{\n\
